@@ -44,6 +44,7 @@ def run(tier):
     cov = chk.coverage
     rng = chk.rng
     found = False
+    fnd = tc.Findings(chk)
     thorough = tier == "thorough"
     n_templates = 10000 if thorough else 600
     maxdepth = 7 if thorough else 4
@@ -81,6 +82,9 @@ def run(tier):
         if ra["exc"] or rb["exc"]:
             if bool(ra["exc"]) == bool(rb["exc"]):
                 esc_stats["both_raise"] += 1
+                kind = ra["exc"].split(":")[0] + ":" + ra["exc"].split(":", 1)[1][:12]
+                esc_stats.setdefault("raise_kinds", {})
+                esc_stats["raise_kinds"][kind] = esc_stats["raise_kinds"].get(kind, 0) + 1
                 continue
         dynamic = talgen.uses(nodes, lambda e: any(k in e.tal for k in ("content", "replace", "attributes")))
         esc_stats["dynamic_insertions"] += 1 if dynamic else 0
@@ -126,7 +130,10 @@ def run(tier):
         if "compile_exc" in r:
             continue
         if r["exc"]:
-            snap_stats["raised"] += 1       # an aborted expansion is not an expansion (D21 is reported by C17)
+            snap_stats["raised"] += 1       # an aborted expansion is not an expansion (what raises is C17's business)
+            kind = r["exc"].split(":")[0] + ":" + r["exc"].split(":", 1)[1][:12]
+            snap_stats.setdefault("raise_kinds", {})
+            snap_stats["raise_kinds"][kind] = snap_stats["raise_kinds"].get(kind, 0) + 1
             continue
         snap_stats["expansions"] += 1
         explicit = talgen.explicit_globals(nodes) | (talgen.explicit_globals(lib_nodes) if lib_nodes else set())
@@ -203,9 +210,10 @@ def run(tier):
                     py_stats["disabled_output_matches_reference"] += 1
                 else:
                     found = True
-                    chk.violation({"what": "with allowPythonPath off a python: path must evaluate to false and nothing else changes",
-                                   "case": tc.replay_doc(off, nodes, lib_nodes), "expected": tc.short(exp, 1500),
-                                   "actual": tc.short(roff["out"], 1500)}, tag="python-off-value")
+                    fnd.add("python-off-value",
+                            {"what": "with allowPythonPath off a python: path must evaluate to false and nothing else changes",
+                             "case": tc.replay_doc(off, nodes, lib_nodes), "expected": tc.short(exp, 1500),
+                             "actual": tc.short(roff["out"], 1500)}, len(off["main"]))
     if worst is not None:
         chk.violation(worst, tag="python-gate")
     if py_meta and py_stats["ran_while_enabled"] == 0:
@@ -235,16 +243,18 @@ def run(tier):
         if disabled and h["canary"]:
             hstats["ran_while_disabled"] += 1
             found = True
-            chk.violation({"what": "TALFileHandler evaluated a python: expression although allowpythonpath is off in the configuration",
-                           "config": {"handlers.tal.TALFileHandler": {"allowpythonpath": h["label"]}},
-                           "file": h["selector"], "template": HANDLER_TEMPLATES[h["selector"][1:]],
-                           "response_latin1": h["out"][:600], "canary": h["canary"]}, tag="python-gate-handler")
+            fnd.add("python-gate-handler",
+                    {"what": "TALFileHandler evaluated a python: expression although allowpythonpath is off in the configuration",
+                     "config": {"handlers.tal.TALFileHandler": {"allowpythonpath": h["label"]}},
+                     "file": h["selector"], "template": HANDLER_TEMPLATES[h["selector"][1:]],
+                     "response_latin1": h["out"][:600], "canary": h["canary"]}, len(HANDLER_TEMPLATES[h["selector"][1:]]))
         if not disabled and uses_py and h["canary"]:
             hstats["ran_while_enabled"] += 1
         if disabled and uses_py and "RAN" in h["out"]:
             found = True
-            chk.violation({"what": "value of a python: expression appears in the output with allowpythonpath off",
-                           "file": h["selector"], "response_latin1": h["out"][:600]}, tag="python-gate-handler")
+            fnd.add("python-gate-handler", {"what": "value of a python: expression appears in the output with allowpythonpath off",
+                                            "file": h["selector"], "template": HANDLER_TEMPLATES[h["selector"][1:]],
+                                            "response_latin1": h["out"][:600]}, 10 ** 6)
     if hstats["served"] != hstats["requests"] or hstats["ran_while_enabled"] == 0:
         found = True
         chk.violation({"what": "handler-level python gate check did not exercise the handler (harness problem)",
@@ -264,8 +274,9 @@ def run(tier):
     for case, r in zip(doc_cases, doc_res):
         if "compile_exc" in r or r.get("exc"):
             found = True
-            chk.violation({"what": "a TAL-free document from the document grammar cannot be compiled / expanded",
-                           "document": case["main"], "exception": r.get("compile_exc") or r.get("exc")}, tag="passthrough-raises")
+            fnd.add("passthrough-raises", {"what": "a TAL-free document from the document grammar cannot be compiled / expanded",
+                                           "document": case["main"], "exception": r.get("compile_exc") or r.get("exc")},
+                    len(case["main"]))
             continue
         doc_stats["documents"] += 1
         doc_stats["with_script_or_style"] += 1 if case["_cdata"] else 0
@@ -301,18 +312,47 @@ def run(tier):
         if why is not None:
             notwf += 1
             found = True
-            chk.violation({"what": "compiled program is not structurally well formed: " + why, "template": src,
-                           "commandList": p["cmds"], "symbolTable": p["sym"], "macros": p["macros"]}, tag="program-not-wf")
+            fnd.add("program-not-wf", {"what": "compiled program is not structurally well formed: " + why, "template": src,
+                                       "commandList": p["cmds"], "symbolTable": p["sym"], "macros": p["macros"]}, len(src))
+    fnd.flush()
     mism, err, nsh = tc.k_wf("C18", "k_wf", progs)
     mism_t, err_t, nsh_t = tc.k_trace("C18", "k_trace", titems)
-    k_broken = bool(mism or err or mism_t or err_t)
+    # the python gate and the escaping functions at component level
+    ecases = tc.eval_cases(rng, 60 if thorough else 16, 30)
+    for ec in ecases:
+        ec["allow"] = 0 if ecases.index(ec) % 4 else 1      # mostly disabled
+    mism_e, err_e, nsh_e, esrc, eskipped = tc.k_eval("C18", "k_eval", ecases)
+    chk.coverage["evaluations"] += len(esrc)
+    for x in esrc[::41]:
+        chk.count(("eval", x["expression"], x["allow_python"]), nontrivial="python:" in x["expression"])
+    gate_leaks = [x for x in esrc if not x["allow_python"] and x["real"]["evals"] > 0]
+    for x in gate_leaks[:1]:
+        found = True
+        chk.violation({"what": "Context.evaluate ran eval() although allowPythonPath is off", "expression": x["expression"],
+                       "context": x["context"], "python_evaluations": x["real"]["evals"]}, tag="python-gate")
+    mism_o, err_o, nsh_o, oin, orows = tc.k_out("C18", "k_out", rng, 600 if thorough else 200)
+    chk.coverage["evaluations"] += len(oin)
+    for (tag, atts, v), row in zip(oin, orows):
+        # direct statement on the implementation: data written as text / attribute value brings no markup of its own
+        text_part = row[2][len("<p>"):-len("</p>")]
+        attr_part = row[4][len('<p title="'):row[4].index('" id="i">')] if '" id="i">' in row[4] else None
+        if "<" in text_part or ">" in text_part or attr_part is None or any(c in attr_part for c in '<>"'):
+            found = True
+            fnd.add("escape-function", {"what": "a value written as text or attribute value keeps a markup character",
+                                        "value": v, "as_text": row[2], "as_attribute": row[4]}, len(v))
+    fnd.flush()
+    k_broken = bool(mism or err or mism_t or err_t or mism_e or err_e or mism_o or err_o)
     k_detail = {"wf_mismatches": [prog_src[i] for i in mism[:5]],
                 "trace_mismatches": [{"template": tsrc[i]["main"], "context": tsrc[i]["ctx"]} for i in mism_t[:5]],
-                "errors": [err, err_t]}
+                "evaluate_mismatches": [esrc[i] for i in mism_e[:5]], "output_mismatches": [oin[i] for i in mism_o[:5]],
+                "errors": [err, err_t, err_e, err_o]}
     cov["correspondence"] = {"programs_checked_wf_in_coq": len(progs), "wf_mismatches": len(mism), "wf_shards": nsh,
                              "vm_traces_followed_in_coq": len(titems), "trace_mismatches": len(mism_t),
                              "trace_steps": sum(len(t["entries"]) for _, t in titems), "trace_shards": nsh_t,
-                             "errors": [e for e in (err, err_t) if e]}
+                             "evaluate_expressions": len(esrc), "evaluate_mismatches": len(mism_e),
+                             "evaluate_python_paths_disabled": sum(1 for x in esrc if not x["allow_python"] and "python:" in x["expression"]),
+                             "output_function_cases": len(oin), "output_mismatches": len(mism_o),
+                             "errors": [e for e in (err, err_t, err_e, err_o) if e]}
     cov["oracle"] = {"escaping": esc_stats, "context_snapshots": snap_stats, "python_gate": py_stats,
                      "python_gate_via_handler": hstats, "passthrough": doc_stats, "programs_not_wf": notwf,
                      "grammar_exclusions": tc.GRAMMAR_EXCLUSIONS}
